@@ -350,9 +350,11 @@ class GenSource(object):
         uses = [n for n in NAMES if n.startswith(kind_ + '.') and ENTRIES[n].kind in ('meth', 'op') and
                 ENTRIES[n].effect == 'pure' and not n.endswith('#bad')]
         same = rng.choice(uses) if uses and rng.random() < 0.7 else None   # observe the SAME thing before/after
-        steps = [('life', (w, kind_, hid, same if w == 'use' else None))
-                 for w in rng.choice([['use', 'change', 'use'], ['use', 'use', 'change', 'use', 'use'],
-                                      ['change', 'use'], ['use', 'change', 'change', 'use']])]
+        pat = rng.choice([['use', 'change', 'use'], ['use', 'use', 'change', 'use', 'use'],
+                          ['change', 'use'], ['use', 'change', 'change', 'use'], ['use'] * rng.randint(5, 9)])
+        if len(pat) >= 5 and pat.count('use') == len(pat) and same is None and uses:
+            same = rng.choice(uses)     # the same question asked many times: counters, budgets, evictions
+        steps = [('life', (w, kind_, hid, same if w == 'use' else None)) for w in pat]
         if front:
             q[0:0] = steps
         else:
@@ -463,6 +465,19 @@ class GenSource(object):
                 self._push_life(q, kind_, hid)
             elif e.effect == 'pure' and e.kind != 'new' and rng.random() < self.cfg['p_life'] * 0.6:
                 q.append(('life_any', op['id']))
+            if name.endswith('#copy') and e.kind == 'new' and args and 'h' in args[0] and rng.random() < 0.5:
+                # after a copy: change ONE of source / copy with a documented mutator, then observe the OTHER
+                kind_ = name.split('.')[0]
+                a_, b_ = args[0]['h'], op['id'] * self.cfg['hstride']
+                if rng.random() < 0.5:
+                    a_, b_ = b_, a_
+                uses = [n for n in NAMES if n.startswith(kind_ + '.') and ENTRIES[n].kind in ('meth', 'op') and
+                        ENTRIES[n].effect == 'pure' and not n.endswith('#bad') and not n.endswith('@inst')]
+                same = rng.choice(uses) if uses else None
+                q.append(('life', ('use', kind_, b_, same)))
+                q.append(('life', ('change', kind_, a_, None)))
+                q.append(('life', ('use', kind_, b_, same)))
+                q.append(('life', ('use', kind_, b_, None)))
             has_list = any(isinstance(x, dict) and x.get('mk') == 'list' for x in args)
             if e.effect == 'pure' and rng.random() < self.cfg['p_repeat']:
                 rep = {'name': name, 'recv': copy.deepcopy(recv), 'args': copy.deepcopy(args),
